@@ -515,6 +515,20 @@ def unroll_array_loops(body):
                 pat = some[0]['pat']['subs'][0]['pat'] if some else None
                 while pat is not None and pat.get('k') in ('Deref', 'DerefPattern'): pat = pat['sub']
                 elems = [peel(f) for f in arr['fields']]
+                if pat is not None and pat.get('k') == 'Binding' and pat.get('sub') is None and all(_simple_arg(e_) for e_ in elems) and \
+                        not any(y['k'] in ('Break', 'Continue', 'Return') for y in walk(some[0]['body'])):
+                    # `for x in [p, q] { B }` is `{ B[x:=p] } { B[x:=q] }`; the locals of B are fresh in every copy
+                    bound = set(q_['var'] for q_ in _all_nodes(some[0]['body']) if q_.get('k') == 'Binding' and 'var' in q_)
+                    stmts = []
+                    for k_i, e_ in enumerate(elems):
+                        def ren(z, k_i=k_i):
+                            if isinstance(z, list): return [ren(y) for y in z]
+                            if not isinstance(z, dict): return z
+                            o = {a_: (ren(b_) if isinstance(b_, (dict, list)) else b_) for a_, b_ in z.items()}
+                            if o.get('k') in ('VarRef', 'UpvarRef', 'Binding') and o.get('var') in bound: o['var'] = '%s~%d' % (o['var'], k_i)
+                            return o
+                        stmts.append({'k': 'Expr', 'expr': rewrite(subst(ren(some[0]['body']), {pat['var']: e_}))})
+                    return {'k': 'Block', 'stmts': stmts, 'expr': None, 'loc': x.get('loc'), 'ty': x.get('ty'), 'synthetic': 'unrolled-array-loop'}
                 ok = pat is not None and pat.get('k') == 'Leaf' and 'adt' not in pat and all(e_.get('k') == 'Tuple' and all(_simple_arg(f) for f in e_['fields']) for e_ in elems)
                 binds = {}
                 if ok:
